@@ -29,7 +29,7 @@ SPARRAY_CONTAINERS = [f + "_array" for f in FORMATS]
 MATRIX_CONTAINERS = ["ndarray"] + SPMATRIX_CONTAINERS      # the container list named by the properties
 ALL_CONTAINERS = MATRIX_CONTAINERS + SPARRAY_CONTAINERS
 
-FLAVOURS = ["small_int", "counts", "real", "skewed", "symmetric", "diag_heavy", "near_triangular"]
+FLAVOURS = ["small_int", "counts", "real", "skewed", "symmetric", "diag_heavy", "near_triangular", "path_chain"]
 DTYPES = ["int64", "int32", "float64"]
 
 
@@ -59,6 +59,27 @@ def count_matrices(draw, n_min=1, n_max=7, connected=None, flavours=None, dtypes
     dtypes = list(dtypes or DTYPES)
     n = draw(st.integers(n_min, n_max))
     flavour = draw(st.sampled_from(flavours))
+    if flavour == "path_chain":
+        # a jump chain 0 - 1 - ... - n-1 (counts in both directions of every link, nothing else): strongly connected, and
+        # its two end states have a single neighbour and no self-count
+        if n < 3:
+            flavour = "small_int"
+        else:
+            order = list(draw(st.permutations(list(range(n)))))
+            fw = draw(st.lists(st.integers(1, 60), min_size=n - 1, max_size=n - 1))
+            bw = draw(st.lists(st.integers(1, 60), min_size=n - 1, max_size=n - 1))
+            inner = draw(st.lists(st.integers(0, 20), min_size=n, max_size=n))
+            Cp = [[0] * n for _ in range(n)]
+            for k in range(n - 1):
+                Cp[order[k]][order[k + 1]] = fw[k]
+                Cp[order[k + 1]][order[k]] = bw[k]
+            if draw(st.booleans()):
+                for k in range(1, n - 1):
+                    Cp[order[k]][order[k]] = inner[k]          # self-counts on interior states only
+            dtype = draw(st.sampled_from(dtypes))
+            if dtype == "float64":
+                Cp = [[float(v) for v in row] for row in Cp]
+            return {"n": n, "C": Cp, "dtype": dtype, "flavour": "path_chain"}
     conn = draw(st.booleans()) if connected is None else connected
     level = draw(st.sampled_from([2, 4, 7, 10]))           # density: entry kept iff mask value < level
     mask = draw(st.lists(st.integers(0, 9), min_size=n * n, max_size=n * n))
